@@ -76,7 +76,8 @@ try:
                 if not os.path.exists("%s/tools/props/%s.py" % (V, p.lower())) or not os.path.exists("%s/coq/theories/Properties/%s.v" % (V, p)):
                     res["runs"][p] = {"exit": -1, "violation_lines": [], "summary": "check not built yet"}
                     continue
-                env = dict(os.environ, VERIF_REPO=WT, VERIF_DEV=("C19,C04,C05" if p == "C19" else p))
+                dev = {"C19": "C19,C04,C05", "C10": "C10,C01,C02,C09,C11,C12,C13"}.get(p, p)
+                env = dict(os.environ, VERIF_REPO=WT, VERIF_DEV=dev)
                 c = sh("./check %s --tier quick" % p, cwd=V, env=env, timeout=3000)
                 lines = c.stdout.strip().split("\n")
                 res["runs"][p] = {"exit": c.returncode, "violation_lines": [l for l in lines if l.startswith("VIOLATION")][:3],
